@@ -906,11 +906,23 @@ def run_byte_order(ctx):
     for cls, kind, dts in ((AnalogWaveform, "analog", [np.int16, np.int32, np.float32, np.float64]), (ComplexWaveform, "complex", [np.complex64, np.complex128]),
                            (Spectrum, "spectrum", [np.float32, np.float64])):
         for dty in dts:
-            for order in ("swapped", "native"):
+            for order in ("swapped", "native", "unaligned", "packed-record-field"):
                 for path in ("from_1d", "from_1d-dtype", "ctor", "from_2d", "load"):
                     for copy in (False, True):
                         vals = np.arange(1, 7).astype(dty)
-                        src = vals.astype(vals.dtype.newbyteorder()) if order == "swapped" else vals.copy()
+                        if order == "swapped":
+                            src = vals.astype(vals.dtype.newbyteorder())
+                        elif order == "unaligned":
+                            # memory that does not start on a multiple of the item size (a field behind a one-byte header in a buffer)
+                            _buf = bytearray(1 + vals.nbytes)
+                            src = np.frombuffer(_buf, dty, count=6, offset=1)
+                            src[:] = vals
+                        elif order == "packed-record-field":
+                            _rec = np.zeros(6, np.dtype([("tag", "u1"), ("value", dty)], align=False))
+                            _rec["value"] = vals
+                            src = _rec["value"]
+                        else:
+                            src = vals.copy()
                         keep = src.copy()
                         raw = lambda w: (w.data if kind == "spectrum" else w.raw_data)
                         if path == "from_1d":
